@@ -29,6 +29,8 @@ pub struct T {
     pub last_loc: usize,
     pub same_loc: u32,
     pub yielded: bool,
+    /// the thread said (or showed) that it is polling: time may pass
+    pub spinning: bool,
     /// coroutine whose kernel half (subscribe) this thread is executing, 0 = none
     pub kernel_of: u64,
     /// consecutive schedule points this thread passed without anybody else running
@@ -121,17 +123,25 @@ impl State {
 
     /// pick who runs next; may advance virtual time; None = hang
     fn pick(&mut self, me: usize) -> Option<usize> {
+        let mut advanced_for_spin = false;
         loop {
             let ready = self.ready();
+            let mut spin_case = false;
             if !ready.is_empty() {
                 // candidates: prefer threads that did not just yield
                 let mut cand: Vec<usize> = ready.iter().copied().filter(|&i| !self.threads[i].yielded).collect();
-                if cand.is_empty() {
+                if !advanced_for_spin && ready.iter().all(|&i| self.threads[i].spinning) {
+                    // everybody who can run is spinning / polling: real time would pass, so let the
+                    // earliest pending deadline (a stalled thread, a timer) come due first
+                    advanced_for_spin = true;
+                    spin_case = true;
+                } else if cand.is_empty() {
                     for &i in &ready {
                         self.threads[i].yielded = false;
                     }
                     cand = ready.clone();
                 }
+                if !spin_case {
                 let choice = match self.strategy {
                     Strategy::Random => cand[(self.next_rand() as usize) % cand.len()],
                     Strategy::Sticky { n } => {
@@ -154,8 +164,9 @@ impl State {
                     t.yielded = false;
                 }
                 return Some(choice);
+                }
             }
-            // nobody ready: advance time to the earliest deadline
+            // nobody ready (or everybody spinning): advance time to the earliest deadline
             let mut best: Vec<(u64, usize)> = vec![];
             let mut best_nonstale: Option<u64> = None;
             for (i, t) in self.threads.iter().enumerate() {
@@ -168,6 +179,9 @@ impl State {
                     }
                     best.push((d, i));
                 }
+            }
+            if spin_case && best_nonstale.is_none() {
+                continue; // nothing to wait for: let the spinners run
             }
             if best.is_empty() {
                 self.hang = Some("all threads blocked, no timer pending".into());
@@ -340,11 +354,14 @@ impl Hooks for Ctl {
             g.threads[me].same_loc += 1;
             if g.threads[me].same_loc >= 3 {
                 g.threads[me].yielded = true;
+                g.threads[me].spinning = true;
                 g.threads[me].same_loc = 0;
             }
         } else {
             g.threads[me].last_loc = l;
             g.threads[me].same_loc = 0;
+            // a different shared access: the thread makes progress
+            g.threads[me].spinning = false;
         }
         // preemption: the OS takes the CPU away from this thread for some (virtual) time
         if g.stall_n > 0 && g.stalls < g.max_stalls && g.next_rand() % g.stall_n == 0 {
@@ -421,6 +438,7 @@ impl Hooks for Ctl {
         }
         g.threads[me].st = TS::Blocked { key, deadline };
         g.threads[me].woken = false;
+        g.threads[me].spinning = false;
         if is_poller(key) {
             g.threads[me].idle_mark = g.progress;
         }
@@ -469,6 +487,7 @@ impl Hooks for Ctl {
                 last_loc: 0,
                 same_loc: 0,
                 yielded: false,
+                spinning: false,
                 kernel_of: 0,
                 streak: 0,
             });
@@ -539,6 +558,7 @@ impl Hooks for Ctl {
             self.finish_hang();
         }
         g.threads[me].yielded = true;
+        g.threads[me].spinning = true;
         drop(self.switch(g, me));
     }
 }
@@ -698,6 +718,7 @@ pub fn run(cfg: Config, body: impl FnOnce(&Ctx)) -> ! {
             last_loc: 0,
             same_loc: 0,
             yielded: false,
+                spinning: false,
             kernel_of: 0,
                 streak: 0,
         }],
